@@ -830,15 +830,33 @@ impl Printer {
     /// directive attributes carried by the element being printed
     fn directives(&mut self, d: &Directives) {
         if let Some(f) = d.for_ {
-            self.attr_raw("wx:for", Some(&f.list));
-            if let Some(i) = &f.item {
-                self.attr_raw("wx:for-item", Some(&Val::Static(i.clone())));
+            // the companions of `wx:for` may stand in any order, also in front of it
+            let mut order = [0usize, 1, 2, 3];
+            if self.loose && self.rng.chance(1, 3) {
+                for i in (1..4).rev() {
+                    let j = self.rng.below(i as u64 + 1) as usize;
+                    order.swap(i, j);
+                }
             }
-            if let Some(i) = &f.index {
-                self.attr_raw("wx:for-index", Some(&Val::Static(i.clone())));
-            }
-            if let Some(k) = &f.key {
-                self.attr_raw("wx:key", Some(&Val::Static(k.clone())));
+            for which in order {
+                match which {
+                    0 => self.attr_raw("wx:for", Some(&f.list)),
+                    1 => {
+                        if let Some(i) = &f.item {
+                            self.attr_raw("wx:for-item", Some(&Val::Static(i.clone())));
+                        }
+                    }
+                    2 => {
+                        if let Some(i) = &f.index {
+                            self.attr_raw("wx:for-index", Some(&Val::Static(i.clone())));
+                        }
+                    }
+                    _ => {
+                        if let Some(k) = &f.key {
+                            self.attr_raw("wx:key", Some(&Val::Static(k.clone())));
+                        }
+                    }
+                }
             }
         }
         match &d.cond {
